@@ -230,6 +230,7 @@ func RunCheck(id string, opt Options) int {
 
 	replayDir := filepath.Join(opt.VerifDir, "replays", id)
 	knownMatched := map[string]bool{}
+	nKnownObl := 0
 	report := func(name, kind, detail string, model string, g *Group) {
 		// match against known findings
 		for _, kf := range kfs {
@@ -238,6 +239,9 @@ func RunCheck(id string, opt Options) int {
 			}
 			if ok, _ := regexp.MatchString("^"+kf.Obligation+"$", name); ok {
 				knownMatched[kf.Text] = true
+				if g != nil && g.Kind != "cover" {
+					nKnownObl++
+				}
 				return
 			}
 		}
@@ -330,7 +334,8 @@ func RunCheck(id string, opt Options) int {
 		level = "proof"
 	}
 	cov := map[string]interface{}{
-		"obligations":              nobl,
+		"obligations":              nobl - nKnownObl,
+		"obligations_failing_as_known_findings": nKnownObl,
 		"discharged":               ndis,
 		"checker_cmd":              fmt.Sprintf("./bin/vcheck check %s --tier %s  (gowp: go/ssa VC generation; z3-new 5.1.0, z3 4.8.12, cvc5 1.0 raced per obligation)", id, opt.Tier),
 		"trusted_base":             assumptions,
